@@ -147,17 +147,21 @@ theorem C09_merge (c : HdrCfg) (info : Extracted) (header h : Text)
   · simp only [hp, Bool.not_false, if_true] at hok
     cases hok
 
-/-- … and the year range of that line runs from the smallest to the largest year stated for the
-    holder in any of the merged notices (it covers all years stated before). -/
+/-- … and the year range of that line runs from the numerically smallest to the numerically largest
+    year stated for the holder in any of the merged notices, and every stated year lies between the
+    two ends (it covers all years stated before). -/
 theorem C09_merge_years (lines : List Text) (stmt : Text) :
     (∀ y, mergedYear (yearsOf (parseLines Generated.endRe lines) stmt) = some y →
       ∃ lo hi, lo ∈ yearsOf (parseLines Generated.endRe lines) stmt ∧ hi ∈ yearsOf (parseLines Generated.endRe lines) stmt ∧
-        textMin (yearsOf (parseLines Generated.endRe lines) stmt) = some lo ∧
-        textMax (yearsOf (parseLines Generated.endRe lines) stmt) = some hi ∧
-        (y = lo ∨ y = lo ++ " - ".toList ++ hi)) ∧
+        yearMin (yearsOf (parseLines Generated.endRe lines) stmt) = some lo ∧
+        yearMax (yearsOf (parseLines Generated.endRe lines) stmt) = some hi ∧
+        (y = lo ∨ y = lo ++ " - ".toList ++ hi) ∧
+        (∀ z ∈ yearsOf (parseLines Generated.endRe lines) stmt, yearVal lo ≤ yearVal z ∧ yearVal z ≤ yearVal hi)) ∧
     (yearsOf (parseLines Generated.endRe lines) stmt ≠ [] →
-      (mergedYear (yearsOf (parseLines Generated.endRe lines) stmt)).isSome = true) :=
-  ⟨(C20.C20_merge_year_span _ stmt).2, C20.C20_merge_year_kept _ stmt⟩
+      (mergedYear (yearsOf (parseLines Generated.endRe lines) stmt)).isSome = true) := by
+  refine ⟨fun y hy => ?_, C20.C20_merge_year_kept _ stmt⟩
+  obtain ⟨lo, hi, h1, h2, h3, h4, h5⟩ := (C20.C20_merge_year_span _ stmt).2 y hy
+  exact ⟨lo, hi, h1, h2, h3, h4, h5, (C20.C20_merge_year_covers _ stmt lo hi h3 h4).1⟩
 
 /-! ### `ReuseInfo.union` as the model has it -/
 
